@@ -57,7 +57,10 @@ func (m *Machine) mapBlock(p *Term, write bool) *Block {
 		m.violate("fault", "map operation on a non-map pointer", nil)
 		panic(&pathEnd{"fault", "bad map pointer"})
 	}
-	if b.guard != 0 && !m.mutexes[b.guard] {
+	if m.sched != nil {
+		m.raceAccess(b.base, 8, write, "map operation")
+	}
+	if b.guard != 0 && !m.holds(b.guard) {
 		m.violate("monitor", "C08 access to lock-protected shared map ("+b.name+") without holding its mutex", nil)
 	}
 	if write {
@@ -91,6 +94,27 @@ func (m *Machine) setCount(b *Block) {
 	m.rawStore(b, 0, m.ctx.Const(uint64(n), 64), 8)
 }
 
+// mapLayout: the Go runtime lays map buckets out from the key and element sizes of the map type an operation is
+// compiled with. Code that reinterprets a map as another map type (frugal's append fast paths) only works if
+// those sizes (and the key kind, for hashing) agree with the type the map was made with; otherwise the native
+// operation reads other slots' bytes. The engine's entry-list model would hide that, so it is a fault here.
+func (m *Machine) mapLayout(b *Block, st types.Type, what string) {
+	mt, ok := st.Underlying().(*types.Map)
+	if !ok || b == nil {
+		return
+	}
+	o := b.mapobj
+	if what == "range" && len(o.orderedLive()) < 2 {
+		// slot 0 of a bucket is at the same offset for every element size: a single entry is still read correctly
+		return
+	}
+	if m.sizeof(mt.Key()) != m.sizeof(o.kt) || m.sizeof(mt.Elem()) != m.sizeof(o.vt) {
+		m.violate("fault", "M-maplayout: "+what+" on a map made as map["+o.kt.String()+"]"+o.vt.String()+" through the type "+st.String()+
+			" (different key/element size: the runtime bucket layout does not match)", nil)
+		panic(&pathEnd{"fault", "map layout"})
+	}
+}
+
 // keyEq: Go map-key equality of a value against the key stored in an entry.
 func (m *Machine) keyEq(kt types.Type, key Value, e mapEntry) *Term {
 	stored := m.load(m.ctx.Const(e.k, 64), kt)
@@ -116,6 +140,7 @@ func (m *Machine) mapUpdate(p *Term, mt *types.Map, key, val Value) {
 	if b == nil {
 		panic(&GuestPanic{runtime: true, msg: "assignment to entry in nil map", site: m.site()})
 	}
+	m.mapLayout(b, mt, "assignment")
 	i := m.mapFind(b, key)
 	b = m.wblock(b)
 	o := b.mapobj
@@ -150,6 +175,7 @@ func (m *Machine) lookup(fr *Frame, x *ssa.Lookup) Value {
 	c := m.ctx
 	if mt, ok := x.X.Type().Underlying().(*types.Map); ok {
 		b := m.mapBlock(m.term(fr, x.X), false)
+		m.mapLayout(b, x.X.Type(), "lookup")
 		var res Value
 		found := false
 		if b != nil {
@@ -183,7 +209,9 @@ func (m *Machine) rangeInit(fr *Frame, x *ssa.Range) Value {
 	b := m.newBlock(24, 8, "range iterator")
 	b.owner = "engine"
 	if _, ok := x.X.Type().Underlying().(*types.Map); ok {
-		m.rawStore(b, 0, m.term(fr, x.X), 8)
+		mp := m.term(fr, x.X)
+		m.rawStore(b, 0, mp, 8)
+		m.mapLayout(m.mapBlock(mp, false), x.X.Type(), "range")
 	} else {
 		s := m.get(fr, x.X).(Agg)
 		m.rawStore(b, 0, s[0].(*Term), 8)
